@@ -2,3 +2,6 @@ import JominiModel.Props.C14
 #print axioms Jomini.Props.C14.C14_indent
 #print axioms Jomini.Props.C14.C14_offsets_irrelevant
 #print axioms Jomini.Props.C14.C14_idempotent
+#print axioms Jomini.Props.C14.C14_write_flat
+#print axioms Jomini.Props.C14.C14_roundtrip_flat
+#print axioms Jomini.Props.C14.C14_idempotent_flat
